@@ -1,2 +1,3 @@
 CONSTANT N = 2
 CONSTANT Alphabet <- KeyAlphabet
+CONSTANT EscapePercent = TRUE
